@@ -600,6 +600,12 @@ def _run_virtual(case, run):
             # NumpyArray::getitem(Slice), a runtime_error, where the eager getitem_field raises invalid_argument)
             tags.append("error_class_differs")
             continue
+        if (ek == "ValueError" and vk == "ok" and not all_forms_declared and op in ("sort", "argsort")
+                and "array with strings can only be sorted with axis=-1" in (emsg or "")):
+            # the refusal is decided by purelist_parameter("__array__") of an outer node; below it sits a VirtualArray without a declared
+            # form, which answers "unknown" rather than materialise (the documented price of not declaring a form, as for op "purelist")
+            tags.append("refusal_needs_declared_form")
+            continue
         if vk != ek:
             raise Violation("errorclass:" + bucket_tail, "%s: eager twin gives %s, virtual twin gives %s" % (op, ek, vk),
                             expected=[ek, emsg if ek != "ok" else M.jsonable(ev)], observed=[vk, vmsg if vk != "ok" else (None if vv is SKIP else M.jsonable(vv))])
